@@ -160,7 +160,14 @@ def gen_func_code(f, lab):
         def tail(sfx):
             return [("push", 4), "CALLDATALOAD", "CALLVALUE", "EQ", ("ref", f"{lab}_t{sfx}"), "JUMPI"] + _revert() + [("label", f"{lab}_t{sfx}"), "STOP"]
 
-        it += [("push", 4), "CALLDATALOAD", ("push", s), "SSTORE", "CALLVALUE", ("push", K), "LT", ("ref", ok), "JUMPI"] + tail("a") + [("label", ok)] + tail("b")
+        if f.get("rel_first"):
+            # slot = arg; require(arg == msg.value); if (msg.value > K) {} else {}
+            # (the tying condition comes FIRST: the branch condition mentions msg.value only and is added later)
+            it += [("push", 4), "CALLDATALOAD", ("push", s), "SSTORE",
+                   ("push", 4), "CALLDATALOAD", "CALLVALUE", "EQ", ("ref", f"{lab}_eq"), "JUMPI"] + _revert() + [("label", f"{lab}_eq"),
+                   "CALLVALUE", ("push", K), "LT", ("ref", ok), "JUMPI", "STOP", ("label", ok), "STOP"]
+        else:
+            it += [("push", 4), "CALLDATALOAD", ("push", s), "SSTORE", "CALLVALUE", ("push", K), "LT", ("ref", ok), "JUMPI"] + tail("a") + [("label", ok)] + tail("b")
     elif k == "xstep":                  # require(slot[s] == a); slot[t] = b
         it += require([("push", s), "SLOAD", ("push", a), "EQ"]) + [("push", b), ("push", f["t"]), "SSTORE", "STOP"]
     elif k == "xset_if":                # if (slot[s] == a) slot[t] = b
